@@ -109,6 +109,13 @@ def _estimates(out, what):
         raise Fail("%s: SOLUTION/ESTIMATE block is malformed: %s" % (what, e), bucket=what + " estimates malformed")
 
 
+def _sites(codes, cont):
+    """The removal set as the caller holds it: the documented list, or a tuple / set / frozenset / dict keys of the same codes."""
+    codes = list(codes)
+    return {"list": codes, "tuple": tuple(codes), "set": set(codes), "frozenset": frozenset(codes),
+            "keys": {c: True for c in codes}.keys()}[cont]
+
+
 def _spec(case):
     spec = dict(case["spec"])
     n = len(SX.records(spec))
@@ -143,7 +150,7 @@ def _check_matrix(el, want, tri, what):
 
 def _check_removal(case, spec, g, inp_lines, remove_codes, clock):
     recs = SX.records(spec)
-    out = _run(g.remove_stns_sinex, g, clock, "in.snx", list(remove_codes))
+    out = _run(g.remove_stns_sinex, g, clock, "in.snx", _sites(remove_codes, case.get("cont", "list")))
     keep = [i for i, r in enumerate(recs) if r["code"] not in remove_codes]
     # header: fixed width, fields at their columns, creation stamp well-formed, count = n, everything else untouched
     hin, hout = inp_lines[0], out["header"]
@@ -451,7 +458,8 @@ def cases(draw, vel=None, max_sets=12):
     for _ in range(draw(st.integers(1, 3))):
         masks.append(draw(st.integers(0, full)))
     masks = [m for m in masks if m != full] or [0]
-    return {"spec": spec, "masks": masks, "clock": draw(clocks()), "clock2": draw(clocks())}
+    return {"spec": spec, "masks": masks, "clock": draw(clocks()), "clock2": draw(clocks()),
+            "cont": draw(st.sampled_from(["list", "list", "list", "tuple", "set", "frozenset", "keys"]))}
 
 
 def _nt(case):
